@@ -40,7 +40,7 @@ func realC01Load(raw json.RawMessage) any {
 		return map[string]any{"bad": err.Error()}
 	}
 	// unbounded recursion must die quickly (fatal "stack overflow") instead of eating 1 GB first
-	debug.SetMaxStack(200 << 20)
+	debug.SetMaxStack(64 << 20)
 	root, err := core.Materialize(a.Req.Files)
 	defer os.RemoveAll(root)
 	if err != nil {
